@@ -124,6 +124,53 @@ func init() {
 			Eq(Select(Select(h, a.Ref), Idx(a.Off, k)), Select(Select(h, b.Ref), Idx(b.Off, k))))))
 	})
 
+	// ---- encoding/json on strings (abstract quoting, spec/json.spec) ----
+	reg("encoding/json.Marshal", func(ex *Exec, st *State, instr ssa.Instruction, args []Value) Value {
+		iv, ok := args[0].(*VIface)
+		if ok && len(iv.Alts) == 1 {
+			if str, isStr := iv.Alts[0].Val.(*Term); isStr && str.Sort == SStr {
+				bt := types.Typ[types.Uint8]
+				ref := ex.allocRow(st, bt)
+				h := st.heap("H.int", SHInt)
+				row := ex.fresh("json.bytes", SArr)
+				st.heaps["H.int"] = Store(h, ref, row)
+				n := ex.fresh("json.len", SInt)
+				i := Var("i!js", SInt)
+				st.assume(And(Le(IntLit(2), n), Le(n, IntLit(1<<40)),
+					Forall([]*Term{i}, And(Le(IntLit(0), Select(row, i)), Le(Select(row, i), IntLit(255)))),
+					App("json.isstr", SBool, row, n), Eq(App("json.unq", SStr, row, n), str)))
+				return tuple(&VSlice{Ref: ref, Off: IntLit(0), Len: n, Cap: n, Elem: bt}, nilIface())
+			}
+		}
+		ex.cur.unmodelled["encoding/json.Marshal of a non-string value"] = true
+		bs := ex.symbolicValueAt(st, types.NewSlice(types.Typ[types.Uint8]), ex.fresh("json.out", SInt).Name, st.alloc)
+		return tuple(bs, ex.maybeError(st, "json.Marshal"))
+	})
+	reg("encoding/json.Unmarshal", func(ex *Exec, st *State, instr ssa.Instruction, args []Value) Value {
+		b, okb := args[0].(*VSlice)
+		iv, ok := args[1].(*VIface)
+		if okb && ok && len(iv.Alts) == 1 {
+			if p, isPtr := iv.Alts[0].Val.(*VPtr); isPtr && isString(p.T) {
+				h := st.heap("H.int", SHInt)
+				var row *Term
+				if o, lit := b.Off.Int64(); lit && o == 0 {
+					row = Select(h, b.Ref)
+				} else {
+					row = App("rowview", SArr, Select(h, b.Ref), b.Off)
+				}
+				if ex.decide(st, App("json.isstr", SBool, row, b.Len)) {
+					ex.store(st, p, App("json.unq", SStr, row, b.Len), instr)
+					return nilIface()
+				}
+				// not a JSON string (a number, null, garbage ...): an error, or no error with an arbitrary string
+				ex.store(st, p, ex.fresh("json.other", SStr), instr)
+				return ex.maybeError(st, "json.Unmarshal")
+			}
+		}
+		ex.unsupported("encoding/json.Unmarshal into a value that is not a *string (reflective struct decoding has no contract)")
+		return nil
+	})
+
 	// ---- regexp ----
 	reg("regexp.MustCompile", func(ex *Exec, st *State, instr ssa.Instruction, args []Value) Value {
 		pat, ok := ex.strLitContent(args[0].(*Term))
